@@ -117,7 +117,13 @@ def skip_compare(case):
 
 
 def generate(rng, n):
-    return [_gen_huge(rng) if rng.random() < 0.04 else _gen_one(rng) for _ in range(n)]
+    out = []
+    for _ in range(n):
+        c = _gen_huge(rng) if rng.random() < 0.04 else _gen_one(rng)
+        if rng.random() < 0.4:
+            c["typed"] = True      # shipped column classes holding null / empty / zero values; `+=` instead of add()
+        out.append(c)
+    return out
 
 
 def corpus():
@@ -204,7 +210,7 @@ def _pubobs(r):
     for nm in NAMES:
         try:
             c = r[nm]
-            look[nm] = [c.key, c.column_index, c.value]
+            look[nm] = [c.key, c.column_index, getattr(c, "_vid", c.value)]
         except KeyError:
             look[nm] = None
     return [len(r), names, look, str(r)]
@@ -213,8 +219,19 @@ def _pubobs(r):
 def run_impl(case):
     from maflib.record import MafRecord
     from maflib.column import MafColumnRecord
+    from maflib import column_types as CT
 
     pool = []
+    # shipped column classes with null / empty / zero values: whether a slot is occupied must not depend on the
+    # truth value, length or equality of what it holds
+    typed = [lambda k, i: CT.SequenceOfStrings.build(k, "", column_index=i), lambda k, i: CT.NullableStringColumn.build(k, "", column_index=i),
+             lambda k, i: CT.SequenceOfIntegers.build(k, "1;2", column_index=i), lambda k, i: CT.IntegerColumn.build(k, "0", column_index=i),
+             lambda k, i: CT.EntrezGeneId.build(k, "0", column_index=i), lambda k, i: CT.StringColumn.build(k, "", column_index=i),
+             lambda k, i: CT.NullableYesOrNo.build(k, "", column_index=i), lambda k, i: CT.BooleanColumn.build(k, "False", column_index=i),
+             lambda k, i: CT.SequenceOfStrings.build(k, "a;b", column_index=i)]
+
+    def val(c):
+        return getattr(c, "_vid", c.value)
 
     def mk(c):
         if len(c) == 2 and c[0] == "ref":
@@ -226,7 +243,11 @@ def run_impl(case):
             if 0 <= c[1] < len(lst) and lst[c[1]] is not None:
                 return lst[c[1]]
             c = ["A", None, 0]
-        o = MafColumnRecord(key=c[0], value=c[2], column_index=c[1])
+        if case.get("typed"):
+            o = typed[c[2] % len(typed)](c[0], c[1])
+            o._vid = c[2]
+        else:
+            o = MafColumnRecord(key=c[0], value=c[2], column_index=c[1])
         pool.append(o)
         return o
 
@@ -247,7 +268,10 @@ def run_impl(case):
                 cc = mk(op[2])
                 r[kk] = cc
             elif op[0] == "add":
-                r.add(mk(op[1]))
+                if case.get("typed"):
+                    r += mk(op[1])
+                else:
+                    r.add(mk(op[1]))
             else:
                 del r[key(op[1])]
         except Exception as e:
@@ -255,10 +279,10 @@ def run_impl(case):
         d = getattr(r, "_MafRecord__columns_dict")
         lst = getattr(r, "_MafRecord__columns_list")
         steps.append({
-            "pool": [[c.key, c.column_index, c.value] for c in pool],
+            "pool": [[c.key, c.column_index, val(c)] for c in pool],
             "exc": exc, "len": len(r), "names": list(r),
-            "dict": [[k, [c.key, c.column_index, c.value]] for k, c in d.items()],
-            "list": [([c.key, c.column_index, c.value] if c is not None else None) for c in lst],
+            "dict": [[k, [c.key, c.column_index, val(c)]] for k, c in d.items()],
+            "list": [([c.key, c.column_index, val(c)] if c is not None else None) for c in lst],
         })
         # property-level observations through the public API only
         after = _pubobs(r)
